@@ -106,8 +106,22 @@ def match_known(finding, known):
 
 def finish(ctx, t0, assumptions, level='other', selftest=None):
     """Write evidence, print protocol lines, return exit code."""
-    counts = ctx.check_floors()
+    deferred = list(getattr(ctx, 'deferred', []))
+    try:
+        counts = ctx.check_floors()
+    except AnalysisError as e:
+        if not deferred:
+            raise
+        deferred.append(('floors', str(e)))
+        counts = {}
+        for i in ctx.instances:
+            counts[i['rule']] = counts.get(i['rule'], 0) + 1
     known = load_known(ctx.prop)
+    if deferred and not any(not match_known(f, known) for f in ctx.findings):
+        # nothing proven wrong, but part of the analysis could not be done: no verdict
+        raise AnalysisError('; '.join('%s: %s' % d for d in deferred))
+    for d in deferred:
+        ctx.notes.append('NOT EVALUATED (%s): %s' % d)
     global EVIDENCE_DIR
     if os.environ.get('NBSA_EVIDENCE_DIR'):
         EVIDENCE_DIR = os.environ['NBSA_EVIDENCE_DIR']
